@@ -249,8 +249,11 @@ pub fn run_ops(bytes: &[u8], sched: &[usize], visible0: usize, opts: Opts, tbits
                     Err(m) => Err(m),
                     Ok(Err(e)) => Ok(format!("{} @{}", e, rd.info().frame_control.as_ref().map(fctl_str).unwrap_or_else(|| "none".into()))),
                     Ok(Ok(None)) => {
-                        if cur.started && cur.rows_done > 0 {
-                            // all rows of the frame have been handed out by row calls
+                        let expected_rows = if !cur.started { 0 } else if rd.info().interlaced {
+                            if (cur.w as u64 * cur.h as u64) > (1 << 22) { usize::MAX } else { adam7_rows_ref(cur.w, cur.h).len() }
+                        } else { cur.h as usize };
+                        if cur.started && cur.rows_done > 0 && cur.rows_done == expected_rows {
+                            // all rows of the frame have been handed out by row calls (a frame abandoned by finish() / frame skipping is not "delivered")
                             let line = rd.output_line_size(cur.w);
                             tr.delivered.push(Delivered { fctl: cur.fctl.clone(), pixels: cur.buf.clone(), via: cur.via.clone(), line, row_bits: cur.w as usize * bits_pp(rd) });
                         }
